@@ -453,7 +453,7 @@ def monitor_c10(sc, obs):
         v.append(dict(sig=sig, what=what))
     # a callback or scripted action that raises is outside the well-posed class: judge only the prefix before it
     for i, o in enumerate(obs):
-        if o['st'] in (1, 4):
+        if o['st'] in (1, 4) and o['op'][0] in ('step', 'run'):
             obs = obs[:i]
             break
     if not obs:
